@@ -151,6 +151,23 @@ def run(shard, ctx):
                     ctx.fail("C02:%s.rebuild_on_instance" % c.name, "cmd.build_cdb(same fields) = %s / %s, first build %s" % (again.hex(), again2.hex(), orig_cdb.hex()), wit)
             except Exception as e:  # noqa: BLE001
                 ctx.fail("C02:%s.roundtrip_raises" % c.name, "second build_cdb raised", wit, exc=e)
+            # build_cdb on an instance encodes the field values it is *given*, the operation code included (an object reused for
+            # a sibling command of the same layout: WRITE AND VERIFY, VERIFY, PRE-FETCH ...): same bytes as the class-level encoder
+            try:
+                op0 = fields.get("opcode")
+                if isinstance(op0, int):
+                    for other in {(op0 & 0xE0) | ((op0 + 4) & 0x1F), (op0 & 0xE0) | ((op0 ^ 0x0F) & 0x1F), op0 ^ 0x01}:
+                        if other == op0 or (other >> 5) != (op0 >> 5):
+                            continue
+                        f3 = dict(fields, opcode=other)
+                        got3 = bytes(orig(cmd, **f3))
+                        want3 = bytes(cls.marshall_cdb(dict(f3)))
+                        ctx.count("rebuilds_with_sibling_opcode")
+                        if got3 != want3 or got3[0] != other:
+                            ctx.fail("C02:%s.rebuild_with_other_opcode" % c.name, "cmd.build_cdb(opcode=%02Xh, ...) = %s, marshall_cdb of the same values = %s" % (other, got3.hex(), want3.hex()), wit)
+                            break
+            except Exception as e:  # noqa: BLE001
+                ctx.fail("C02:%s.roundtrip_raises" % c.name, "build_cdb with a sibling operation code raised %s" % type(e).__name__, wit, exc=e)
             # a deep copy is a command of its own: scribbling over the copy's CDB leaves this command's CDB alone
             try:
                 import copy as _copy
